@@ -2554,7 +2554,14 @@ def check_C11(tier, seed):
                   "(let ((tmpl '((n acc) (progn (setq n (- n 1)) (if (< n 0) acc (cdp n (+ acc 1))))))) (eval (cons 'defun (cons 'cdp tmpl))) (list tmpl (cdp 3 0)))",
                   "(let ((tmpl '((n acc) (let ((m (- n 1))) (cond ((< m 0) acc) (t (cdl m (+ acc 2)))))))) (eval (cons 'defun (cons 'cdl tmpl))) (list tmpl (cdl 2 0)))",
                   "(let ((tmpl '((n) (cde (- n 1))))) (eval (cons 'defun (cons 'cdx tmpl))) (eval (cons 'defun (cons 'cde (list '(n) (list 'if '(< n 1) ''done (cons 'cde (cdr (cadr tmpl)))))))) (list tmpl (cde 2)))",
-                  "(let ((body '(when (> n 0) (wtl (- n 1))))) (eval (list 'defun 'wtl '(n) body)) (list body (wtl 2)))"]
+                  "(let ((body '(when (> n 0) (wtl (- n 1))))) (eval (list 'defun 'wtl '(n) body)) (list body (wtl 2)))",
+                  # one call form evaluated while its head variable is bound to different functions (parameter, loop variable,
+                  # let variable, a consed form handed to eval around a redefinition): evaluation leaves nothing behind in the form
+                  "(progn (defun apply-to (f x) (f x)) (list (apply-to (lambda (v) (+ v 1)) 10) (apply-to (lambda (v) (* v 2)) 10) (apply-to 'car '(7))))",
+                  "(let ((r nil)) (dolist (f (list (lambda (v) (+ v 1)) (lambda (v) (* v 10)) (lambda (v) (- v 1)))) (setq r (cons (f 1) r))) r)",
+                  "(mapcar (lambda (cell) (let ((op (cdr cell))) (op 5))) (list (cons 'a (lambda (a) (+ a 1))) (cons 'b (lambda (a) (* a 3))) (cons 'c 'list)))",
+                  "(progn (setq form (list 'area 3)) (defun area (x) (* x 3)) (setq r1 (eval form)) (defun area (x) (* x 2)) (list r1 (eval form) form))",
+                  "(let ((r nil) (i 0)) (while (< i 3) (let ((f (if (< i 1) (lambda () 'first) (lambda () (list 'later i))))) (setq r (cons (f) r))) (setq i (1+ i))) r)"]
     for i in range(n):
         if i < len(MACRO_DATA): t = MACRO_DATA[i]
         else:
